@@ -358,7 +358,8 @@ def _cli_sub(draw):
     for o in CLI_OPTS:
         if draw(st.integers(0, 3)) == 0:
             argv.append(o)
-    r = draw(st.sampled_from([None, 'canonical', 'alphanumeric', 'attributes-first,canonical']))
+    r = draw(st.sampled_from([None, 'canonical', 'alphanumeric', 'attributes-first,canonical', 'inverted-last,alphanumeric', 'alphanumeric,inverted-last',
+                              'inverted-last,alphanumeric,attributes-first']))
     if r:
         argv += ['--rearrange', r]
     r = draw(st.sampled_from([None, 'original', 'canonical']))
